@@ -35,6 +35,7 @@ def build():
 
 def setup():
     build()
+    build_conf_fuzz()
 
 
 def hx(s):
@@ -278,7 +279,8 @@ class Layout:
         return self.draw(st.sampled_from(options))
 
     def ws(self, need=False, newline_ok=False):
-        opts = [" ", " ", "  ", "\t", " /* c */ ", "/**/ ", " /* multi\n line */ " if newline_ok else " /*x*/ "]
+        opts = [" ", " ", "  ", "\t", " /* c */ ", "/**/ ", " /* multi\n line */ " if newline_ok else " /*x*/ ",
+                " /** doc **/ ", "/***/ ", " /* a * b / c */ ", " /*/ slash */ ", " /* // not cpp */ "]
         if not need:
             opts += ["", ""]
         if newline_ok:
@@ -991,3 +993,97 @@ def strategy(pid, tier, opts):
 def evaluate(case, ctx):
     ctx["n"] += 1
     return {"C14": eval_c14, "C15": eval_c15, "C16": eval_c16}[ctx["pid"]](case, ctx)
+
+
+# ---------------------------------------------------------------------------
+# C14 extra phase: coverage-guided fuzzing of conf_read with the atomicity oracle
+# inside the target (harness/confh.c built with -DCONFH_FUZZ)
+
+def build_conf_fuzz():
+    hsrc = vc.harness_path("confh.c")
+
+    def b(out):
+        srcs = [os.path.join(vc.REPO, "src", x) for x in ("config.c", "set.c", "common.c", "bitset.c")]
+        vc._run(["clang", "-g", "-O1", "-DCONFH_FUZZ", "-fsanitize=fuzzer,address,undefined", "-fno-sanitize-recover=undefined"]
+                + vc.DEFS + vc.inc_flags() + ["-w", hsrc] + srcs + ["-levent", "-o", os.path.join(out, "conf_fuzz")])
+    return os.path.join(vc.cached_build("conffuzz", vc.repo_sources() + [hsrc], vc.DEFS, b), "conf_fuzz")
+
+
+def run_fuzz_input(binary, data, workdir):
+    os.makedirs(workdir, exist_ok=True)
+    f = os.path.join(workdir, "input.bin")
+    with open(f, "wb") as fh:
+        fh.write(data)
+    env = dict(os.environ)
+    env["ASAN_OPTIONS"] = "detect_leaks=0:abort_on_error=0"
+    env["VERIF_INPROC_DIR"] = workdir
+    p = subprocess.run([binary, f], stdout=subprocess.PIPE, stderr=subprocess.PIPE, env=env, timeout=120)
+    if p.returncode != 0:
+        txt = p.stderr.decode("latin-1")
+        for ln in txt.splitlines():
+            if "ERROR: AddressSanitizer" in ln or "runtime error" in ln or "ORACLE-FAIL" in ln:
+                return ln.strip()[:300]
+        return "exit %d" % p.returncode
+    return None
+
+
+def eval_fuzz_case(case, ctx):
+    res = CaseResult()
+    msg = run_fuzz_input(build_conf_fuzz(), bytes.fromhex(case["input_hex"]), os.path.join(ctx["root"], "fz"))
+    if msg:
+        sig = "failed_load_changed_tree" if "configuration changed" in msg else ("failed_load_notified" if "hooks ran" in msg else "memory_error")
+        res.violations.append(V("C14", sig, "conf_read on a fuzz input (prior selector byte + candidate bytes): " + msg))
+    return res
+
+
+def extra_phase(pid, tier, seed):
+    if pid != "C14":
+        return None
+    out = {"evaluations": 0, "nontrivial": 0, "fails": [], "classes": {}, "samples": [], "exhaustive_scope": None}
+    binary = build_conf_fuzz()
+    root = os.path.join(vc.BUILD, "tmp", "%d-conffuzz" % os.getpid())
+    shutil.rmtree(root, ignore_errors=True)
+    runs = 25000 if tier == "quick" else 1000000
+    procs = []
+    corp_files = corpus_files()
+    for i in range(vc.NCPU):
+        d = os.path.join(root, str(i))
+        corp = os.path.join(d, "corpus")
+        os.makedirs(corp)
+        if i % 2 == 0:      # half of the jobs start from valid files, half from an empty corpus
+            for j, txt in enumerate(corp_files):
+                with open(os.path.join(corp, "seed%d" % j), "wb") as fh:
+                    fh.write(bytes([j % 4]) + txt.encode("latin-1"))
+        env = dict(os.environ)
+        env["ASAN_OPTIONS"] = "detect_leaks=0:abort_on_error=0"
+        env["VERIF_INPROC_DIR"] = d
+        fs = (seed * 613 + i * 17 + 3) % 2 ** 31 or 1
+        procs.append((d, subprocess.Popen([binary, "-runs=%d" % runs, "-max_len=700", "-seed=%d" % fs, "-artifact_prefix=" + d + "/",
+                                           "-print_final_stats=1", "-timeout=30", corp], stdout=subprocess.DEVNULL, stderr=subprocess.PIPE, env=env)))
+    for d, p in procs:
+        err = p.communicate()[1].decode("latin-1")
+        for ln in err.splitlines():
+            if ln.startswith("stat::number_of_executed_units:"):
+                out["evaluations"] += int(ln.split(":")[-1])
+        for a in sorted(glob.glob(os.path.join(d, "crash-*"))):
+            with open(a, "rb") as fh:
+                data = fh.read()
+            msg = "libFuzzer artifact"
+            for ln in err.splitlines():
+                if "ERROR: AddressSanitizer" in ln or "runtime error" in ln or "ORACLE-FAIL" in ln:
+                    msg = ln.strip()[:300]
+                    break
+            sig = "failed_load_changed_tree" if "configuration changed" in msg else ("failed_load_notified" if "hooks ran" in msg else "memory_error")
+            out["fails"].append({"case": {"mode": "fuzz", "input_hex": data.hex()}, "sig": sig, "msg": msg})
+    out["classes"]["libfuzzer_executions"] = out["evaluations"]
+    shutil.rmtree(root, ignore_errors=True)
+    return out
+
+
+_evaluate_c = evaluate
+
+
+def evaluate(case, ctx):   # noqa: F811
+    if isinstance(case, dict) and case.get("mode") == "fuzz":
+        return eval_fuzz_case(case, ctx)
+    return _evaluate_c(case, ctx)
